@@ -332,5 +332,48 @@ def best_vcs():
     return out
 
 
+def initial_row_vc(l10_set):
+    """Base case of the history invariant: a controller with no history file starts from the epoch-0 row the documentation
+    describes - early-stopping / learning-rate resume count-downs = their OWN burn-in periods, patience count-downs = their own
+    patience, both metrics +inf, learning rate = 10 ** log10_learning_rate when configured (else unset)."""
+    import pydrobert.torch.training as tr
+
+    name = "TrainingStateController.update_cache[no history file; log10_learning_rate %s]" % ("set" if l10_set else "unset")
+
+    def thunk(I):
+        params = SObj(None, {"early_stopping_patience": EP, "early_stopping_burnin": EB, "reduce_lr_patience": RP, "reduce_lr_burnin": RB,
+                             "log10_learning_rate": L10 if l10_set else None}, "params")
+        obj = SObj(tr.TrainingStateController, {"params": params, "cache_hist": {}, "user_entry_types": {}, "state_csv_path": None, "_rank": -1}, "self")
+        I.ex.ghost["obj"] = obj
+        I.call(I.getattr(obj, "update_cache"), [], {})
+        return obj
+
+    def post(p):
+        if not api.returns(p):
+            return False
+        h = p.ghost["obj"].fields["cache_hist"]
+        if not isinstance(h, dict) or list(h.keys()) != [0] or not isinstance(h[0], dict):
+            return [("exactly_the_epoch_0_row", z3.BoolVal(False))]
+        r = h[0]
+        eq = lambda k, v: ip.to_z3(r[k]) == v if r.get(k) is not None and not isinstance(r.get(k), float) else z3.BoolVal(False)
+        inf = float("inf")
+        goals = [("epoch_is_zero", z3.BoolVal(r.get("epoch") == 0)), ("es_resume_is_the_early_stopping_burnin", eq("es_resume_cd", EB)), ("es_patience_is_the_early_stopping_patience", eq("es_patience_cd", EP)),
+                 ("rlr_resume_is_the_reduce_lr_burnin", eq("rlr_resume_cd", RB)), ("rlr_patience_is_the_reduce_lr_patience", eq("rlr_patience_cd", RP)),
+                 ("metrics_start_at_infinity", z3.BoolVal(r.get("train_met") == inf and r.get("val_met") == inf))]
+        if l10_set:
+            goals.append(("learning_rate_is_ten_to_the_configured_power", ip.to_z3(r["lr"]) == ip.POW10(L10) if ip.is_z3(r.get("lr")) else z3.BoolVal(False)))
+        else:
+            goals.append(("learning_rate_unset", z3.BoolVal(r.get("lr") is None)))
+        return goals
+
+    return VC("C15.P.initial_row", name, M, "TrainingStateController.update_cache", thunk, pre=[EP >= 1, EB >= 0, RP >= 1, RB >= 0], posts=[("epoch_0_row", post)],
+              inputs={"es_patience": EP, "es_burnin": EB, "rlr_patience": RP, "rlr_burnin": RB},
+              assumptions=["no history file (state_csv_path None): reading a file back is the bounded driver's (restart equivalence)", "10 ** x as the uninterpreted POW10"])
+
+
+def initial_vcs(ctx):
+    return [initial_row_vc(True), initial_row_vc(False)]
+
+
 def vcs(ctx):
     return step_vcs(ctx.quick) + best_vcs()
